@@ -42,3 +42,8 @@ class CVRP(Adapter):
         dem = torch.tensor([i["dem"] for i in insts], dtype=torch.float32) / CAP_UNIT
         return TensorDict({"depot": locs[:, 0], "locs": locs[:, 1:], "demand": dem},
                           batch_size=[len(insts)])
+
+    def project(self, td, r, inst):
+        return {"cur": int(td["current_node"][r, 0]),
+                "used": int(round(float(td["used_capacity"][r, 0]) * CAP_UNIT)),
+                "visited": [int(i) for i in td["visited"][r].nonzero().flatten().tolist()]}
